@@ -214,7 +214,8 @@ class UnitTyper:
 
 
 # ------------------------------------------------------------------------------------------------------- degree
-def degree(node: ast.AST, in_set: Callable[[str], bool], binds=None, zero_calls_ok: bool = True, _memo=None) -> Optional[int]:
+def degree(node: ast.AST, in_set: Callable[[str], bool], binds=None, zero_calls_ok: bool = True, _memo=None,
+           zero: Callable[[str], bool] = None) -> Optional[int]:
     """Homogeneity degree of the expression in the atoms selected by in_set; None if not homogeneous/decidable.
     Literals have degree 0 (and literal 0 is polymorphic: returns 'any' encoded as -999)."""
     ANY = -999
@@ -258,8 +259,17 @@ def degree(node: ast.AST, in_set: Callable[[str], bool], binds=None, zero_calls_
                     return ANY if l == ANY else l * n.right.value
                 return 0 if (l == 0 and r == 0) else None
             return None
+        if isinstance(n, ast.Attribute) and dotted_name(n) is None:
+            # pint idiom: Quantity(x, 'kW').to('MW').magnitude is linear in x
+            if n.attr in ('magnitude', 'm', 'value'):
+                return go(n.value, b)
+            return None
         if isinstance(n, ast.Call):
             d = dotted_name(n.func) or ''
+            if isinstance(n.func, ast.Attribute) and n.func.attr == 'to' and dotted_name(n.func) is None:
+                return go(n.func.value, b)
+            if d.split('.')[-1] in ('Quantity', 'quantity') and len(n.args) == 2 and isinstance(n.args[1], ast.Constant):
+                return go(n.args[0], b)
             if d in LINEAR_WRAPPERS and n.args:
                 return go(n.args[0], b)
             if d in ('max', 'min', 'np.maximum', 'np.minimum', 'abs', 'np.abs', 'math.fabs') and n.args:
@@ -282,6 +292,8 @@ def degree(node: ast.AST, in_set: Callable[[str], bool], binds=None, zero_calls_
                 memo[id(d)] = None
                 memo[id(d)] = go(d.expr, d.binds)
                 return memo[id(d)]
+            if zero is not None and zero(key):
+                return ANY
             return 1 if in_set(key) else 0
         if isinstance(n, ast.Subscript):
             return go(n.value, b)
